@@ -44,6 +44,18 @@ type Ctx struct {
 	// The per-scheme random stream is re-seeded from (seed, suite, scheme index), so the operations are
 	// the same however the suite is sharded.
 	ShardI, ShardK int
+	pending        *os.File
+}
+
+// Pending records what is about to be executed. A panic inside a goroutine that the LIBRARY starts cannot be
+// recovered by the harness and kills the process; the runner then reads this file and reports its content as
+// the input on which the implementation crashed.
+func (c *Ctx) Pending(desc string) {
+	if c.pending == nil {
+		return
+	}
+	c.pending.Truncate(0)
+	c.pending.WriteAt([]byte(desc+"\n"), 0)
 }
 
 // Scheme starts the part of a suite that belongs to the scheme with index idx; false = another shard's.
@@ -123,6 +135,15 @@ func safely(f func() string) (res string) {
 
 var lastPanic string
 
+// activeCtx lets the call helpers (goKey, goCheck, …) record the pending operation without threading the context through.
+var activeCtx *Ctx
+
+func pendingOp(desc string) {
+	if activeCtx != nil {
+		activeCtx.Pending(desc)
+	}
+}
+
 type Suite func(c *Ctx)
 
 var suites = map[string]Suite{}
@@ -187,8 +208,16 @@ func main() {
 			}
 		}
 	}
+	if pf, err := os.Create(filepath.Join(*out, name+".pending")); err == nil {
+		c.pending = pf
+		activeCtx = c
+	}
 	t0 := time.Now()
 	s(c)
+	if c.pending != nil {
+		c.pending.Close()
+		os.Remove(filepath.Join(*out, name+".pending"))
+	}
 	c.ops.Flush()
 	c.out.Flush()
 	fo.Close()
